@@ -49,6 +49,8 @@ struct SLine {
     probes: BTreeMap<String, u64>,
     faults: BTreeMap<String, u64>,
     sigs: Vec<u64>,
+    #[serde(default)]
+    cover: BTreeMap<String, Vec<u64>>,
     nviol: u64,
     groups: BTreeMap<String, u64>,
     samples: Vec<Value>,
@@ -81,6 +83,7 @@ pub fn worker<F: Family>(seed: u64, tier: Tier, from: u64, to: u64, trace_idx: b
     let mut out = out.lock();
     let mut st = SLine::default();
     let mut sigs: BTreeSet<u64> = BTreeSet::new();
+    let mut cover: BTreeMap<String, BTreeSet<u64>> = BTreeMap::new();
     for i in from..to {
         if trace_idx {
             let _ = writeln!(out, "B {}", i);
@@ -99,6 +102,9 @@ pub fn worker<F: Family>(seed: u64, tier: Tier, from: u64, to: u64, trace_idx: b
             sigs.extend(ctx.sigs.iter());
         }
         st.digest_xor ^= ctx.digest.rotate_left((i % 63) as u32);
+        for (k, v) in &ctx.cover {
+            cover.entry(k.to_string()).or_default().extend(v.iter());
+        }
         if digests {
             let _ = writeln!(out, "D {} {:016x}", i, ctx.digest);
         }
@@ -133,6 +139,7 @@ pub fn worker<F: Family>(seed: u64, tier: Tier, from: u64, to: u64, trace_idx: b
             .push(serde_json::to_value(gen_scenario::<F>(seed, tier, from)).unwrap());
     }
     st.sigs = sigs.into_iter().collect();
+    st.cover = cover.into_iter().map(|(k, v)| (k, v.into_iter().collect())).collect();
     let _ = writeln!(out, "S {}", serde_json::to_string(&st).unwrap());
     let _ = out.flush();
 }
@@ -587,6 +594,7 @@ pub fn parent<F: Family>(opts: &Opts) -> i32 {
     let mut agg = SLine::default();
     let mut sigs: BTreeSet<u64> = BTreeSet::new();
     let mut groups: BTreeMap<String, Group> = BTreeMap::new();
+    let mut cover: BTreeMap<String, BTreeSet<u64>> = BTreeMap::new();
     let mut harness_errors: Vec<String> = Vec::new();
     for (w, st) in states.iter().enumerate() {
         let g = st.lock().unwrap();
@@ -604,6 +612,9 @@ pub fn parent<F: Family>(opts: &Opts) -> i32 {
                 *agg.faults.entry(k2.clone()).or_insert(0) += v;
             }
             sigs.extend(s.sigs.iter());
+            for (k2, v) in &s.cover {
+                cover.entry(k2.clone()).or_default().extend(v.iter());
+            }
             for (k2, v) in &s.groups {
                 let e = groups.entry(k2.clone()).or_insert_with(|| {
                     let mut parts = k2.splitn(2, '|');
@@ -884,6 +895,14 @@ pub fn parent<F: Family>(opts: &Opts) -> i32 {
         }
     }
 
+    let cover_sizes: BTreeMap<String, usize> = cover.iter().map(|(k, v)| (k.clone(), v.len())).collect();
+    if violations.is_empty() && harness_errors.is_empty() {
+        for (name, min) in F::required_cover(tier) {
+            if cover_sizes.get(name).copied().unwrap_or(0) < min {
+                missing_probes.push(name);
+            }
+        }
+    }
     // ---- evidence
     let wall = t0.elapsed().as_secs_f64();
     let (real, stub) = F::components();
@@ -907,6 +926,7 @@ pub fn parent<F: Family>(opts: &Opts) -> i32 {
             "seeds_per_hour": runs_per_hour.round(),
             "faults_fired": agg.faults,
             "reach_probes": agg.probes,
+            "coverage_sets": cover_sizes,
             "missing_required_probes": missing_probes,
             "components_real": real,
             "components_stub": stub,
